@@ -176,7 +176,11 @@ public:
   {
     bufferStart += size;
     if(bufferStart >= bufferEnd)
+    {
       bufferStart = bufferEnd = buffer ? buffer : (byte*)&_capacity;
+      if(buffer)
+        *bufferEnd = 0;
+    }
   }
 
   void removeBack(usize size)
